@@ -574,6 +574,40 @@ struct CallAttrs final : common::KeyValueIterable
   size_t size() const noexcept override { return items.size(); }
 };
 
+// "equal sets always hash equally", whatever route built the key: the series key type has five
+// constructors; the recording path uses one of them. The same attribute list goes through all
+// of them (sizes 1-3: an initializer list cannot be built at run time) and the results must
+// be equal with equal hashes.
+void check_key_routes(const CallAttrs &attrs)
+{
+  using FOAM = sdkmet::FilteredOrderedAttributeMap;
+  const auto &it = attrs.items;
+  if (it.empty() || it.size() > 3)
+    return;
+  sdkmet::DefaultAttributesProcessor dflt;
+  FOAM a(attrs), b(attrs, &dflt);
+  FOAM c = it.size() == 1   ? FOAM({it[0]})
+           : it.size() == 2 ? FOAM({it[0], it[1]})
+                            : FOAM({it[0], it[1], it[2]});
+  FOAM d = it.size() == 1   ? FOAM({it[0]}, &dflt)
+           : it.size() == 2 ? FOAM({it[0], it[1]}, &dflt)
+                            : FOAM({it[0], it[1], it[2]}, &dflt);
+  FOAM e = it.size() == 1   ? FOAM({it[0]}, nullptr)
+           : it.size() == 2 ? FOAM({it[0], it[1]}, nullptr)
+                            : FOAM({it[0], it[1], it[2]}, nullptr);
+  const FOAM *all[] = {&b, &c, &d, &e};
+  for (const FOAM *x : all)
+    if (!(a == *x) || a.GetHash() != x->GetHash() ||
+        x->GetHash() != sdkcommon::GetHashForAttributeMap(*x))
+    {
+      vsim::report("C08.equal_sets_hash_differently",
+                   "the same attribute list built through two constructors of the series key "
+                   "gives unequal keys or different hashes");
+      return;
+    }
+  vsim::probe("metrics.key_routes_compared");
+}
+
 void do_add(World &w, int task, const Op &op)
 {
   (void)task;
@@ -590,6 +624,8 @@ void do_add(World &w, int task, const Op &op)
   m.digit   = op.c;
   m.attr_id = op.b;
   int64_t unit = (int64_t)1 << (2 * op.c);
+  if (w.c->prop == "C08" && ((uint64_t)op.d >> 44) % 4 == 0)
+    check_key_routes(attrs);
   ev(E_ADD_INV, i, op.c, hidx);
   m.inv = hist().size() - 1;
   {
